@@ -2,13 +2,20 @@ package evsim
 
 import (
 	"bytes"
+	"encoding/hex"
+	"encoding/json"
 	"evsim/simrt"
 	"fmt"
 	"math/rand/v2"
 	"sort"
 
+	cpctypes "github.com/EscanBE/evermint/v12/x/cpc/types"
+	evmtypes "github.com/EscanBE/evermint/v12/x/evm/types"
 	abci "github.com/cometbft/cometbft/abci/types"
 	sdkdb "github.com/cosmos/cosmos-db"
+	"github.com/cosmos/gogoproto/proto"
+	"github.com/ethereum/go-ethereum/common"
+	ethcrypto "github.com/ethereum/go-ethereum/crypto"
 )
 
 // ReplicaEnv is the environment vector of one re-execution (C01): none of it may influence results.
@@ -20,6 +27,7 @@ type ReplicaEnv struct {
 	ReopenAt    []int64  `json:"reopen_at,omitempty"`  // re-open the app from its DB after Commit of these heights
 	KillAt      []int64  `json:"kill_at,omitempty"`    // FinalizeBlock, process dies before Commit, restart, re-execute
 	Interleave  bool     `json:"interleave,omitempty"` // CheckTx of the block's txs before FinalizeBlock (mempool traffic)
+	Queries     bool     `json:"queries,omitempty"`    // the node serves eth_call traffic (latest and historical heights) between ABCI calls
 
 	primaryOffset int64
 }
@@ -188,6 +196,9 @@ func envDims(e *ReplicaEnv) []string {
 	if n.EvmTracer != "" {
 		parts = append(parts, "config.evm_tracer")
 	}
+	if e.Queries {
+		parts = append(parts, "queries")
+	}
 	if e.Interleave {
 		parts = append(parts, "interleave")
 	}
@@ -235,8 +246,38 @@ func project(e *ReplicaEnv, dim string) ReplicaEnv {
 		o.Node.EvmTracer = e.Node.EvmTracer
 	case "interleave":
 		o.Interleave = true
+	case "queries":
+		o.Queries = true
 	}
 	return o
+}
+
+// replicaQueries: what a node that also serves JSON-RPC does between ABCI calls: eth_call to the precompile addresses
+// (registered or not yet) at the latest and at historical heights. Answers are ignored; the point is whatever the
+// query path leaves behind in the process.
+func replicaQueries(r *RunCtx, n *Node, committed int64) {
+	if committed < 1 {
+		return
+	}
+	targets := []common.Address{cpctypes.CpcStakingFixedAddress, cpctypes.CpcBech32FixedAddress}
+	for k := uint64(0); k < 4; k++ {
+		targets = append(targets, ethcrypto.CreateAddress(cpctypes.CpcModuleAddress, k))
+	}
+	from := NewWallet("w", 0).Addr
+	for i, h := range []int64{0, committed - 1, 1} {
+		if h < 0 || (h == 0 && i != 0) {
+			continue
+		}
+		for _, to := range targets {
+			args := map[string]interface{}{"from": from.Hex(), "to": to.Hex(), "input": "0x" + hex.EncodeToString(Selector("name()")), "gas": "0x2dc6c0"}
+			bz, _ := json.Marshal(args)
+			req, _ := proto.Marshal(&evmtypes.EthCallRequest{Args: bz, GasCap: 25_000_000})
+			if _, _, pi := n.Query(&abci.RequestQuery{Path: "/ethermint.evm.v1.Query/EthCall", Data: req, Height: h}); pi != nil {
+				r.Violate("C20", "abci_panic", map[string]string{"phase": "Query", "site": panicSite(pi)}, "Query panicked: %s", pi.Value)
+			}
+			r.Count("f:replica_served_query")
+		}
+	}
 }
 
 // RunReplica re-executes the primary's recorded blocks under env in its own bubble.
@@ -278,10 +319,16 @@ func RunReplica(rt *Runtime, r *RunCtx, g *Built, recs []*BlockRecord, env *Repl
 					}
 				}
 			}
+			if env.Queries {
+				replicaQueries(r, n, rec.Height-1)
+			}
 			res, err, pi := n.FinalizeBlock(rec.Req)
 			if err != nil || pi != nil {
 				r.Violate("C01", "replica_failed", map[string]string{"env": envClass(env)}, "replica %s height %d: FinalizeBlock failed where the primary succeeded: %v %v", env.Name, rec.Height, err, pi)
 				return
+			}
+			if env.Queries {
+				replicaQueries(r, n, rec.Height-1) // between FinalizeBlock and Commit
 			}
 			same := CompareFinalize(r, env, rec.Height, rec.Res, res)
 			if _, err, pi := n.Commit(); err != nil || pi != nil {
@@ -346,6 +393,7 @@ func genReplicas(rng *rand.Rand, nBlocksHint int, count int, vestEnds []int64) [
 			}
 		}
 		e.Interleave = rng.IntN(3) == 0
+		e.Queries = rng.IntN(3) == 0
 		out = append(out, e)
 	}
 	return out
